@@ -122,7 +122,12 @@ def run(prog, rep):
         rep.ob("C05.1", u.fn("p_uthread_init"), "init:" + g, okm, "p_uthread_init creates %s through %s whenever it does not exist yet" % (g, want) if okm else
                "p_uthread_init can return with %s still NULL (or not made by %s): %s" % (g, want, "lock and unlock of the creation spinlock then fail silently and the start-up handshake is gone"
                                                                                   if g == SPIN else "the running thread's own reference is never registered for release at thread exit"), ln)
-    rep.floor("C05.1", 2 + 2)
+    from plint.wiring import shutdown_resets
+    nrs, brs = shutdown_resets(u.fn("p_uthread_shutdown"))
+    rep.ob("C05.1", u.fn("p_uthread_shutdown"), "shutdown:reset", nrs >= 2 and not brs, "p_uthread_shutdown stores NULL into each global it releases (the next init creates them again)" if (nrs >= 2 and not brs) else
+           ("line %d: %s is released and keeps pointing at the destroyed object: the next init creates nothing" % (brs[0][1], brs[0][0]) if brs else "fewer than two releases found in p_uthread_shutdown"),
+           brs[0][1] if brs else u.fn("p_uthread_shutdown").loc[0])
+    rep.floor("C05.1", 2 + 2 + 1)
 
     # ---- C05.2 ---------------------------------------------------------------------
     st_cf = [(b, i, f, n) for (b, i, f, n) in stores_in(cf) if f == "ref_count"]
